@@ -57,6 +57,7 @@ def gstep (s : Streams) (l : Lbl) (g : Ghost) : Ghost :=
       { g with cut := upd g.cut k true, weird := g.weird || (decide (n > 0) && decide (marker s = .dataFrame k)) }
     else g
   | .gone k => if (s.store.get? k).isSome then { g with cut := upd g.cut k true } else g
+  | .pop k f => if isMsg f then { g with emi := upd g.emi k (g.emi k ++ [f]) } else g
   | _ => g
 
 structure Inv (s : Streams) (h : Option DataFrame) (g : Ghost) : Prop where
@@ -67,6 +68,8 @@ structure Inv (s : Streams) (h : Option DataFrame) (g : Ghost) : Prop where
   ref : ∀ k, ∃ D, Refine (g.emi k ++ msg (out s h k) ++ D) (g.acc k) ∧ (g.cut k = false → D = [])
   closed : ∀ k, g.cut k = true → ClosedAt s k
   infl : ∀ k, inflight s h k ≠ [] → (s.store.get? k).isSome = true ∨ g.cut k = true
+  /-- an entry from which something was emitted exists, or was removed (and then counts as cut) -/
+  live : ∀ k, g.emi k ≠ [] → (s.store.get? k).isSome = true ∨ g.cut k = true
 
 -- ===================================================================== small facts
 
